@@ -65,6 +65,8 @@ fn oracles_str(out: &mut Out, text: &str, o: Options, reply: &str, res: &Result<
     if let (Ok((v, cm)), Ok((rv, rcm))) = (res, &r) {
         // C02: decoded value
         out.oracle(&to_rv(v) == rv, "decoded value = reference decoding", || format!("impl {} / reference {:?}", reply, rv));
+        // C02: key lookups on the parsed objects = the reference entries carrying that key, in source order
+        lookup_oracle(out, v, rv, reply);
         // C05: code map
         let icm: Vec<(usize, usize, usize)> = cm.iter().map(|(_, e)| (e.span.start(), e.span.end(), e.volume)).collect();
         out.oracle(&icm == rcm, "code map = reference spans/volumes in pre-order", || format!("impl {:?} / reference {:?}", icm, rcm));
@@ -106,6 +108,58 @@ fn oracles_str(out: &mut Out, text: &str, o: Options, reply: &str, res: &Result<
             }
             _ => {}
         }
+    }
+}
+
+/// C02, last sentence: on every object of a parsed document, every keyed lookup returns exactly
+/// the entries of the *reference decoding* that carry the key, in source order.
+fn lookup_oracle(out: &mut Out, v: &Value, rv: &RV, reply: &str) {
+    match (v, rv) {
+        (Value::Array(a), RV::Arr(r)) => {
+            for (x, y) in a.iter().zip(r.iter()) {
+                lookup_oracle(out, x, y, reply);
+            }
+        }
+        (Value::Object(o), RV::Obj(r)) => {
+            let mut seen: Vec<&str> = Vec::new();
+            let mut maxmult = 0;
+            for (k, _) in r.iter() {
+                if seen.contains(&k.as_str()) {
+                    continue;
+                }
+                seen.push(k.as_str());
+                let idx: Vec<usize> = r.iter().enumerate().filter(|(_, e)| &e.0 == k).map(|(i, _)| i).collect();
+                let vals: Vec<&RV> = idx.iter().map(|i| &r[*i].1).collect();
+                maxmult = maxmult.max(idx.len());
+                let key = k.as_str();
+                let got_vals: Vec<RV> = o.get(key).map(to_rv).collect();
+                let got_idx: Vec<usize> = o.indexes_of(key).collect();
+                let got_wi: Vec<(usize, RV)> = o.get_with_index(key).map(|(i, v)| (i, to_rv(v))).collect();
+                let got_ent: Vec<(String, RV)> = o.get_entries(key).map(|e| (e.key.as_str().to_string(), to_rv(&e.value))).collect();
+                let got_ewi: Vec<usize> = o.get_entries_with_index(key).map(|(i, _)| i).collect();
+                let ok = got_vals.iter().collect::<Vec<_>>() == vals
+                    && got_idx == idx
+                    && got_wi.iter().map(|(i, _)| *i).collect::<Vec<_>>() == idx
+                    && got_wi.iter().map(|(_, v)| v).collect::<Vec<_>>() == vals
+                    && got_ent.iter().all(|(kk, _)| kk == k)
+                    && got_ent.iter().map(|(_, v)| v).collect::<Vec<_>>() == vals
+                    && got_ewi == idx
+                    && o.index_of(key) == idx.first().copied()
+                    && o.redundant_index_of(key) == idx.get(1).copied()
+                    && o.contains_key(key)
+                    && match o.get_unique(key) { Ok(Some(x)) => idx.len() == 1 && &to_rv(x) == vals[0], Ok(None) => false, Err(_) => idx.len() > 1 };
+                out.oracle(ok, "key lookups on a parsed object = reference entries with that key, in source order", || format!("key {:?}: indexes_of {:?} (want {:?}), get {:?} in {}", k, got_idx, idx, got_vals, reply));
+            }
+            // a key that does not occur
+            let mut absent = String::from("~absent");
+            while seen.contains(&absent.as_str()) { absent.push('~'); }
+            out.oracle(o.get(absent.as_str()).next().is_none() && !o.contains_key(absent.as_str()) && o.index_of(absent.as_str()).is_none() && o.indexes_of(absent.as_str()).next().is_none(), "lookup of an absent key finds nothing", || reply.to_string());
+            out.count(match maxmult { 0 => "lookup_obj_empty", 1 => "lookup_obj_unique_keys", 2 => "lookup_obj_dup2", 3 => "lookup_obj_dup3", _ => "lookup_obj_dup4plus" });
+            for (e, (_, y)) in o.entries().iter().zip(r.iter()) {
+                lookup_oracle(out, &e.value, y, reply);
+            }
+        }
+        _ => {}
     }
 }
 
@@ -338,7 +392,7 @@ impl<'a> DocGen<'a> {
         } else {
             s.push('{');
             self.ws(s);
-            let n = self.rng.below(5);
+            let n = if self.rng.chance(1, 8) { self.rng.range(4, 12) } else { self.rng.below(5) };
             for i in 0..n {
                 if i > 0 { s.push(','); }
                 self.ws(s);
